@@ -120,8 +120,11 @@ def kernel_stub(mat, assume_full_rank=False, matching_rank=True, tolerance=1e-8,
     out_shape = mat.shape[:-2]
     k, n = mat.shape[-2:]
     m = n - k
-    if m <= 0:
-        raise Inconclusive("kernel stub: no null space expected")
+    if m < 0:
+        raise Inconclusive("kernel stub: more rows than columns")
+    if m == 0:
+        # full-rank square matrix: the null space is trivial (contract of a kernel routine: an (n, 0) basis)
+        return np.empty(out_shape + (n, 0), dtype=object if sym else float)
     res = np.empty(out_shape + (n, m), dtype=object if sym else float)
     for idx in np.ndindex(*out_shape):
         M = mat[idx]
